@@ -73,12 +73,26 @@ def judge(case):
     g = case["grid"]
     d = tempfile.mkdtemp(prefix="c11-")
     try:
-        with quiet():
-            fg = full_grid(g["b"], g["o"], g["t"])
-            grid_arr = np.asarray(fg.get_full_grid_as_array())
-            dirs = np.asarray(fg.get_position_grid().get_o_grid().get_grid_as_array(), dtype=float)
-            quats = np.asarray(fg.b_rotations.get_grid_as_array(only_upper=True), dtype=float)
-            radii = np.asarray(fg.get_position_grid().get_radii(), dtype=float)
+        if g.get("synthetic_nb"):
+            # a product array with many rotations, laid out exactly like a full-grid array (position-major, rotation-minor);
+            # the rotations are the package's own random-quaternion set without the (minutes-long) cell construction
+            from molgri.space.utils import random_quaternions, hemisphere_quaternion_set
+            from molgri.space.fullgrid import PositionGrid
+            with quiet():
+                np.random.seed(0)
+                quats = np.asarray(hemisphere_quaternion_set(random_quaternions(g["synthetic_nb"])), dtype=float)
+                pg = PositionGrid(g["o"], g["t"])
+                positions = np.asarray(pg.get_position_grid_as_array(), dtype=float)
+                dirs = np.asarray(pg.get_o_grid().get_grid_as_array(), dtype=float)
+                radii = np.asarray(pg.get_radii(), dtype=float)
+            grid_arr = np.hstack([np.repeat(positions, len(quats), axis=0), np.tile(quats, (len(positions), 1))])
+        else:
+            with quiet():
+                fg = full_grid(g["b"], g["o"], g["t"])
+                grid_arr = np.asarray(fg.get_full_grid_as_array())
+                dirs = np.asarray(fg.get_position_grid().get_o_grid().get_grid_as_array(), dtype=float)
+                quats = np.asarray(fg.b_rotations.get_grid_as_array(only_upper=True), dtype=float)
+                radii = np.asarray(fg.get_position_grid().get_radii(), dtype=float)
         p1 = write_molecule(d, "m1", case["m1"]["elements"], case["m1"]["coords"], case["m1"]["fmt"])
         p2 = write_molecule(d, "m2", case["m2"]["elements"], case["m2"]["coords"], case["m2"]["fmt"])
         if case["placements"] == "grid":
@@ -190,7 +204,11 @@ def _shard(arg):
                 dirs.append(u if any(u) else [0, 0, 1])
             placements = {"quats": quats, "dirs": dirs,
                           "rfrac": [draw(st.integers(20, 1000)) / 1000 for _ in range(K)]}
-        return {"grid": {"b": b, "o": o, "t": t}, "m1": m1, "m2": draw(molecule2()), "placements": placements,
+        grid = {"b": b, "o": o, "t": t}
+        if draw(st.integers(0, 9)) == 0:
+            grid = {"b": "synthetic", "synthetic_nb": draw(st.sampled_from([255, 256, 257, 300])),
+                    "o": draw(st.sampled_from(["zero3D_1", "ico_2", "cube3D_4"])), "t": "[0.3, 0.5]"}
+        return {"grid": grid, "m1": m1, "m2": draw(molecule2()), "placements": placements,
                 "include_outliers": draw(st.booleans()), "cartesian_grid": draw(st.booleans())}
 
     known = load_known("C11")
@@ -205,7 +223,8 @@ def _shard(arg):
             res.extra["placements_excluded_near_boundary"] = res.extra.get("placements_excluded_near_boundary", 0) + info["excluded"]
             res.case(sample=case, nontrivial=case["placements"] != "grid" and info["judged"] > 0, key=case,
                      classes=[f"m2={sc}", f"m2kind={case['m2'].get('kind')}", "placements=grid" if case["placements"] == "grid" else "placements=continuous",
-                              f"outliers={case['include_outliers']}", f"cartesian_metric={case['cartesian_grid']}"])
+                              f"outliers={case['include_outliers']}", f"cartesian_metric={case['cartesian_grid']}"]
+                     + (["more_than_250_rotations"] if case["grid"].get("synthetic_nb") else []))
             if msgs:
                 fail(case, "; ".join(msgs))
         return test
@@ -221,7 +240,7 @@ def replay(case):
 def run(tier):
     total, max_frames = (192, 20) if tier == "quick" else (3200, 40)
     res = merge_results(pmap(_shard, [(s, total // 16, max_frames) for s in range(16)]))
-    rule = (f"Hypothesis: grid from 8 rotation grids x 9 direction grids x 7 radial grids (n_t>=2, outer boundary 0.35 .. 7.75 nm); molecule 2 with 3..9 atoms, three "
+    rule = (f"Hypothesis: grid from 8 rotation grids x 9 direction grids x 7 radial grids (n_t>=2, outer boundary 0.35 .. 7.75 nm), one case in ten with 255..300 rotations (product array built from the package's random-quaternion set); molecule 2 with 3..9 atoms, three "
             f"distinct principal moments (relative gaps >= 5 %), planar or generic, atoms in random order, off-centre, .xyz or .gro; "
             f"1..{max_frames} placements with rotation from a normalised integer quaternion, direction from a normalised integer "
             f"vector, radius in (0.02, 1.3] x outer boundary, or the grid's own pseudotrajectory (one case in four); both settings of "
